@@ -1149,6 +1149,21 @@ def get_body(facts, defn):
     return _BODIES[key]
 
 
+_DERIVED_IDX = {}
+
+
+def _is_derived(facts, defn):
+    key = id(facts)
+    if key not in _DERIVED_IDX:
+        idx = set()
+        for imp in facts.impls:
+            if imp.get("derived"):
+                for it in imp["items"]:
+                    idx.add(it["def"])
+        _DERIVED_IDX[key] = idx
+    return defn in _DERIVED_IDX[key]
+
+
 def accessor_summary(facts, callee):
     """return-term of `callee` if it is a pure function of its params built only from
     projections / aggregates / constants (an 'accessor' or constructor); else None"""
@@ -1157,7 +1172,11 @@ def accessor_summary(facts, callee):
         return _ACC[key]
     _ACC[key] = None
     rec = facts.bodies.get(callee)
-    if rec is None or rec["kind"] not in ("fn", "assoc_fn") or len(rec["blocks"]) > 12:
+    if rec is None or rec["kind"] not in ("fn", "assoc_fn") or len(rec["blocks"]) > 48:
+        return None
+    if len(rec["blocks"]) > 12 and not _is_derived(facts, callee):
+        # (larger straight-line bodies only for DERIVED constructors - derive_more `Constructor` of a struct with many fields:
+        #  `Position::new(..)` is the struct literal)
         return None
     b = get_body(facts, callee)
     # must be loop-free, call-free (except transparent/inlined), store-free
